@@ -25,6 +25,11 @@ temporary directory (one file per wind field; see ``vf/ref/c16_wind.py``):
   vertically, above the ISA limit): a; a,b; a,b,a (incl. a,a and a,a,a); thorough: all
   sequences of length <= 3.  A refused query must be refused every time it is asked.
 
+* every pair (thorough: also triple) of consecutive queries on ONE Weather object whose
+  altitudes are base + {0, +-1, 5, +-20, 200, ...} m (closer than one hPa, and further apart)
+  in vertically sheared fields, around base altitudes inside a layer, on a file pressure
+  level and in the stratosphere; every answer judged against the reference.
+
 Every case builds its own Weather object(s), so a case is self-contained and replays in a
 fresh process; the calls of the first four families are grouped so that one case asks one
 object for the same point several times (different headings / airspeeds).
@@ -192,6 +197,12 @@ REP_VARIATIONS = [
 ]  # fmt: skip
 REP_Q = [dict(REP_BASE, name=n, **d) for n, d in REP_VARIATIONS]
 
+# consecutive queries on one object at nearby altitudes (vertically sheared fields, heading 45)
+ALT_STEPS_Q = [0.0, 1.0, 5.0, 20.0, 200.0, -1.0, -20.0]
+ALT_STEPS_T = [0.0, 1.0, 5.0, 20.0, 100.0, 200.0, 1000.0, -1.0, -5.0, -20.0]
+ALT_STEPS_TRIPLE = [0.0, 1.0, 5.0, 20.0, 200.0]
+ALT_QUERY = {'h': 45.0, 'tas': 200.0}
+
 SEQ_STAMPS = [['E10', 0], ['E10', 12], ['rot', 0], ['rot', 5], ['rot', 23], ['rot-next-month', 5], ['N50', 5]]
 SEQ_QUERY = {'h': 45.0, 'tas': 200.0, 'alt': 9144.0, 'lon': -77.0, 'lat': 41.0}  # heading 45: sin = cos
 
@@ -210,6 +221,20 @@ def sublattices(tier, seed):
     tas = TAS_T if thorough else TAS_Q
     heads = HEADINGS_15 + [INT_HEADING[seed % 8]]
     subs = []
+    bases = [['generic', INT_ALT[seed % 8]], ['9000 m', 9000.0], ['level-500', W.isa_altitude_m(500.0)]] + ([['stratosphere', 12500.0]] if thorough else [])
+    afields = ['ml1', 'nodal', 'ml-rot'] + (['ml2'] if thorough else [])
+    steps = ALT_STEPS_T if thorough else ALT_STEPS_Q
+    dseqs = [[a, b] for a in steps for b in steps]
+    if thorough:
+        dseqs += [[a, b, c] for a in ALT_STEPS_TRIPLE for b in ALT_STEPS_TRIPLE for c in ALT_STEPS_TRIPLE]
+    gpos = _positions(seed)[2]
+    # first in the list: its violations are the first ones the runner tries to confirm
+    subs.append({
+        'name': 'consecutive queries on one Weather object at nearby altitudes (sheared fields)',
+        'axes': {'field': afields, 'base_altitude': bases, 'altitude_offsets_m': steps, 'triples_over': ALT_STEPS_TRIPLE if thorough else [],
+                 'position': [gpos], 'query': [ALT_QUERY]},
+        'cases': [{'k': 'alt', 'f': f, 'hr': 7, 'base': b, 'd': d, 'pos': gpos} for f in afields for b in bases for d in dseqs],
+    })  # fmt: skip
     cases = []
     for f in uniform:
         for t in tas:
@@ -509,7 +534,34 @@ def _run_rep(case):
     return {'outcome': _outcome('rep', classes), 'nontrivial': True, 'violations': out}
 
 
-_RUN = {'grp': _run_grp, 'rot': _run_rot, 'seq': _run_seq, 'rep': _run_rep}
+def _run_alt(case):
+    out, classes = [], []
+    fid, hour = case['f'], case['hr']
+    (bname, base), (pname, lon, lat) = case['base'], case['pos']
+    h, tas = ALT_QUERY['h'], ALT_QUERY['tas']
+    wx = _new_weather()
+    for n, d in enumerate(case['d']):
+        alt = base + d
+        what = (f'call {n + 1} on one Weather object at altitudes {bname} ({base!r} m) + {case["d"]} m: get_ground_speed(field {fid}, '
+                f'hour {hour}, ({lon}, {lat}) [{pname}], altitude {alt!r} m, TAS {tas}, heading {h})')  # fmt: skip
+        r = _call(wx, fid, hour, lon, lat, alt, tas, h, 'explicit')
+        classes.append(_check_call(r, _expect(fid, hour, lon, lat, alt), tas, h, what, out))
+        if out:
+            break
+    return {'outcome': _outcome('alt', classes), 'nontrivial': True, 'violations': out}
+
+
+def replay(case):
+    """A case is self-contained (own Weather objects). Defects that depend on the interpreter's
+    memory layout (e.g. a cache keyed on id()) may need several attempts to show again."""
+    for _ in range(6):
+        vs = run_case(case).get('violations', [])
+        if vs:
+            return vs
+    return []
+
+
+_RUN = {'alt': _run_alt, 'grp': _run_grp, 'rot': _run_rot, 'seq': _run_seq, 'rep': _run_rep}
 
 
 def run_case(case):
